@@ -1,6 +1,9 @@
 package main
 
-import "fmt"
+import (
+	"fmt"
+	"strings"
+)
 
 // A memory is an SMT array (BV64 -> BV8). Versions form a chain; stores are
 // native SMT stores, havocs / sequence writes introduce a fresh array constant
@@ -27,6 +30,10 @@ type MemVer struct {
 	at, n  string
 	byteAt func(st *State, k string) string // k is the BV64 offset inside the written range
 	seen   map[string]bool                  // addresses already instantiated (per MemVer; facts are path independent)
+	// mStore: n bytes of sval (little-endian) written at at
+	sval  string
+	sn    int
+	fresh bool // the target is an object allocated by the function under analysis
 }
 
 // facts adds to st the instantiation facts needed for reading address a of m.
@@ -48,6 +55,14 @@ func (m *MemVer) facts(st *State, a string) {
 			st.inst[cur][key] = true
 			if cur.keep != nil {
 				k := cur.keep(a)
+				if st.loadFresh {
+					// an object allocated by this function is not codec metadata: that disjunct of the
+					// frame is dropped (weakening an assumption), which spares the solver a case split
+					k = strings.ReplaceAll(k, "(ismeta "+a+")", "false")
+					if k == "(or false)" {
+						k = "false"
+					}
+				}
 				if k != "false" {
 					st.assume(implies(k, eq(app("select", cur.term, a), app("select", cur.base.term, a))))
 				}
@@ -61,11 +76,20 @@ func (m *MemVer) facts(st *State, a string) {
 				return
 			}
 			st.inst[cur][key] = true
+			if cur.fresh && st.loadMeta {
+				// metadata exists before the call; this write fills an object allocated during it
+				st.assume(eq(app("select", cur.term, a), app("select", cur.base.term, a)))
+				continue
+			}
 			// a in [at, at+n)  <=>  (a - at) <u n   (modular; sizes never wrap)
-			k := bvsubw(a, cur.at, 64)
+			k := st.x.addrDiff(a, cur.at)
 			in := app("bvult", k, cur.n)
+			if idx, cnt, ok := st.x.elemRange(a, cur.at, cur.n); ok && st.boundedIdx[idx] {
+				// element idx of an array of cnt elements that starts at at: inside exactly when idx < cnt
+				in = app("bvult", idx, cnt)
+			}
 			if v, _, ok := litVal(cur.n); ok && v == 1 {
-				in = eq(a, cur.at)
+				in = eq(k, bvLit(0, 64))
 			}
 			st.assume(eq(app("select", cur.term, a), ite(in, cur.byteAt(st, k), app("select", cur.base.term, a))))
 		}
@@ -74,7 +98,7 @@ func (m *MemVer) facts(st *State, a string) {
 
 func (st *State) newMemName(prefix string) string {
 	st.x.fresh++
-	n := fmt.Sprintf("%s_%d", prefix, st.x.fresh)
+	n := fmt.Sprintf("%s_%d", sanitize(prefix), st.x.fresh)
 	st.decl(n, sortMem)
 	return n
 }
@@ -85,11 +109,189 @@ func (st *State) load8(space string, a string) string {
 	if m == nil {
 		panic("load from unknown memory space " + space)
 	}
-	m.facts(st, a)
-	if m.kind == mZero {
-		return bvLit(0, 8)
+	return st.read8(m, a)
+}
+
+// maxPendingStores bounds the read-over-write resolution done by the engine;
+// beyond it the remaining chain is left to the solver's array theory.
+const maxPendingStores = 20
+
+// read8 reads address a of memory version m. Stores are resolved by the engine
+// where the distance between the two addresses is a syntactic constant (the
+// common base pointer cancels): a store that cannot overlap is skipped, a store
+// that covers the address yields its byte. Stores at a symbolically unrelated
+// address become an if-then-else on (a - at) <u n. The result is equal to
+// (select m.term a) by the read-over-write axioms.
+func (st *State) read8(m *MemVer, a string) string {
+	type pending struct {
+		cond, b string
 	}
-	return app("select", m.term, a)
+	cur := m
+	var pend []pending
+	resolved := ""
+	// element stores already decided by an index equality on this walk: a later (older) store to
+	// the same element and byte is shadowed by the newer one under the same condition
+	seenCond := map[string]bool{}
+	for cur != nil && cur.kind == mStore && cur.sn > 0 {
+		if len(pend) >= maxPendingStores {
+			break
+		}
+		if cur.fresh && st.loadMeta {
+			// codec metadata exists before the call: it never overlaps an object allocated during it
+			cur = cur.base
+			continue
+		}
+		d := st.x.addrDiff(a, cur.at)
+		if v, _, ok := litVal(d); ok {
+			if v < uint64(cur.sn) {
+				resolved = storedByte(cur, v)
+				break
+			}
+			cur = cur.base
+			continue
+		}
+		// two elements k and i of one array, both indexes known to lie in [0, 2^40): the addresses
+		// overlap exactly when the indexes do (no arithmetic is left to the solver)
+		if k, i, es, c, ok := st.x.elemDiff(a, cur.at); ok && uint64(cur.sn) <= es && st.boundedIdx[k] && st.boundedIdx[i] {
+			var cond string
+			var off uint64
+			switch {
+			case c >= 0 && uint64(c) < uint64(cur.sn):
+				cond, off = eq(k, i), uint64(c)
+			case c < 0 && uint64(int64(es)+c) < uint64(cur.sn):
+				cond, off = eq(k, bvadd(i, bvLit(1, 64))), uint64(int64(es)+c)
+			default:
+				cur = cur.base
+				continue
+			}
+			if cond == "true" {
+				resolved = storedByte(cur, off)
+				break
+			}
+			if cond == "false" {
+				cur = cur.base
+				continue
+			}
+			if !seenCond[cond] {
+				seenCond[cond] = true
+				pend = append(pend, pending{cond, storedByte(cur, off)})
+			}
+			cur = cur.base
+			continue
+		}
+		var in, b string
+		if cur.sn == 1 {
+			in = eq(d, bvLit(0, 64))
+			b = cur.sval
+		} else {
+			in = app("bvult", d, bvLit(uint64(cur.sn), 64))
+			st.elemLemma(a, cur.at, in, uint64(cur.sn))
+			// byte d of the stored value, selected by the low bits of d (d < n holds where it is used)
+			dl := st.define("bo", sortBV(4), extract(d, 3, 0))
+			b = storedByte(cur, uint64(cur.sn-1))
+			for k := cur.sn - 2; k >= 0; k-- {
+				b = ite(eq(dl, bvLit(uint64(k), 4)), storedByte(cur, uint64(k)), b)
+			}
+		}
+		pend = append(pend, pending{in, b})
+		cur = cur.base
+	}
+	val := resolved
+	if val == "" {
+		if cur == nil {
+			panic("read8: memory chain without a base")
+		}
+		cur.facts(st, a)
+		if cur.kind == mZero {
+			val = bvLit(0, 8)
+		} else {
+			val = app("select", cur.term, a)
+		}
+	}
+	for i := len(pend) - 1; i >= 0; i-- {
+		val = ite(pend[i].cond, pend[i].b, val)
+	}
+	return val
+}
+
+// wholeValue recognises (concat (extract hi..) ... (extract 7 0 v)) over all the bytes of one value v.
+func (x *Exec) wholeValue(parts []string) string {
+	n := len(parts)
+	// all bytes literal: one literal
+	if n <= 8 {
+		var v uint64
+		lit := true
+		for _, p := range parts {
+			b, w, ok := litVal(p)
+			if !ok || w != 8 {
+				lit = false
+				break
+			}
+			v = v<<8 | b
+		}
+		if lit {
+			return bvLit(v, 8*n)
+		}
+	}
+	val := ""
+	for i, p := range parts {
+		k := n - 1 - i // byte index of this part
+		pre := fmt.Sprintf("((_ extract %d %d) ", 8*k+7, 8*k)
+		if !strings.HasPrefix(p, pre) || !strings.HasSuffix(p, ")") {
+			return ""
+		}
+		v := p[len(pre) : len(p)-1]
+		if val == "" {
+			val = v
+		} else if v != val {
+			return ""
+		}
+	}
+	x.defMu.Lock()
+	w := x.valWidth[val]
+	x.defMu.Unlock()
+	if w != 8*n {
+		return ""
+	}
+	return val
+}
+
+// elemLemma: when the read address and the store address are elements k and i of one array
+// (a - at = es*(k-i) + c), the range test (a - at) <u n is decided by the indexes alone. The
+// equivalence is a theorem of 64-bit arithmetic for indexes in [0, 2^40) and es <= 2^20; it is
+// asserted guarded by those bounds, so that the solver need not reason about the multiplication.
+func (st *State) elemLemma(a, at, in string, n uint64) {
+	k, i, es, c, ok := st.x.elemDiff(a, at)
+	if !ok || n > es {
+		return
+	}
+	key := k + "|" + i + "|" + in
+	if st.lemmaSeen == nil {
+		st.lemmaSeen = map[string]bool{}
+	}
+	if st.lemmaSeen[key] {
+		return
+	}
+	st.lemmaSeen[key] = true
+	var simp string
+	switch {
+	case c >= 0 && uint64(c) < n:
+		simp = eq(k, i)
+	case c < 0 && uint64(int64(es)+c) < n:
+		simp = eq(k, bvadd(i, bvLit(1, 64)))
+	default:
+		simp = "false"
+	}
+	lim := bvLit(maxLen, 64)
+	bounds := and(app("bvult", k, lim), app("bvult", i, lim))
+	st.assume(implies(bounds, eq(in, simp)))
+}
+
+func storedByte(m *MemVer, i uint64) string {
+	if m.sn == 1 {
+		return m.sval
+	}
+	return extract(m.sval, int(8*i+7), int(8*i))
 }
 
 // loadN reads n bytes little-endian as a BV(8n).
@@ -100,6 +302,9 @@ func (st *State) loadN(space string, a string, n int) string {
 	parts := make([]string, n)
 	for i := 0; i < n; i++ {
 		parts[n-1-i] = st.load8(space, bvadd(a, bvLit(uint64(i), 64)))
+	}
+	if w := st.x.wholeValue(parts); w != "" {
+		return w
 	}
 	t := "(concat"
 	for _, p := range parts {
@@ -117,6 +322,9 @@ func (st *State) storeN(space string, a string, val string, n int) {
 	t := m.term
 	// name the value once
 	vn := st.define("sv", sortBV(8*n), val)
+	st.x.defMu.Lock()
+	st.x.valWidth[vn] = 8 * n
+	st.x.defMu.Unlock()
 	for i := 0; i < n; i++ {
 		b := vn
 		if n > 1 {
@@ -125,7 +333,7 @@ func (st *State) storeN(space string, a string, val string, n int) {
 		t = app("store", t, bvadd(a, bvLit(uint64(i), 64)), b)
 	}
 	name := st.define("M"+space, sortMem, t)
-	st.mem[space] = &MemVer{kind: mStore, term: name, base: m}
+	st.mem[space] = &MemVer{kind: mStore, term: name, base: m, at: a, sval: vn, sn: n, fresh: st.storeFresh}
 	st.modified[space] = true
 }
 
